@@ -51,7 +51,7 @@ class Fields:
 
 
 class Ob:
-    __slots__ = ("key", "kind", "fn", "snip", "loc", "proven", "failed", "detail", "visits")
+    __slots__ = ("key", "kind", "fn", "snip", "loc", "proven", "failed", "detail", "visits", "fail_callers")
 
     def __init__(self, key, kind, fn, snip, loc):
         self.key = key
@@ -63,6 +63,7 @@ class Ob:
         self.failed = 0
         self.detail = ""
         self.visits = 0
+        self.fail_callers = set()       # library functions from which the failing visits were reached (immediate caller of the site's function)
 
 
 class Ctx:
@@ -161,6 +162,15 @@ class Ctx:
             o.proven += 1
         else:
             o.failed += 1
+            caller = None
+            if sinst is inst:
+                caller = self.callstack[-1][0] if self.callstack else None
+            else:
+                for idx in range(len(self.callstack) - 1, -1, -1):
+                    if self.callstack[idx][0] is sinst:
+                        caller = self.callstack[idx - 1][0] if idx > 0 else None
+                        break
+            o.fail_callers.add(caller["dpath"] if caller is not None else "")
             if not o.detail:
                 o.detail = detail
                 if self.callstack:
